@@ -29,3 +29,24 @@ Theorem C01_invalid :
       (let r := spec_invalid mc ev c cur p in (fst (fst r), snd (fst r), of_outcome (snd r))).
 Proof. exact trigger_event_invalid. Qed.
 Print Assumptions C01_invalid.
+
+(* The trigger's positional and keyword arguments (or the one event object wrapping them
+   when send_event is set) reach every callback of the step unchanged, and every callback
+   runs on behalf of the triggered model. *)
+Theorem C01_payload :
+  forall (mc : machine) (ev : env) (c : ctx) (ts : list trans) (cur : state) (p : nat),
+    Forall (carries c) (fst (fst (spec_step mc ev c ts cur p))).
+Proof. exact spec_step_payload. Qed.
+Print Assumptions C01_payload.
+
+(* An event name the machine does not know: no callback runs; AttributeError, or False when
+   the state - else the machine - ignores invalid triggers. *)
+Theorem C01_unknown_event :
+  forall (mc : machine) (ev : env) (c : ctx) (e : event) (p : nat) (cur : state) (sd : sdef),
+    lookup (m_events mc) e = None -> get_state mc cur = Some sd ->
+    trigger mc ev c e p cur = ([], cur, if ignores mc sd then inr false else inl AttributeError).
+Proof.
+  intros mc ev c e p cur sd L G. unfold trigger. rewrite L. unfold bind, get. cbn [length app].
+  rewrite G. destruct (ignores mc sd); reflexivity.
+Qed.
+Print Assumptions C01_unknown_event.
